@@ -1,6 +1,7 @@
 package qexpr
 
 import (
+	"flag"
 	"fmt"
 	"math/big"
 	"sort"
@@ -74,6 +75,9 @@ func TestC25(t *testing.T) {
 		}
 	}()
 
+	// shrinking re-runs three database round trips per attempt: bound it, so a
+	// failing run stays well inside the driver's time limit on a loaded machine
+	flag.Set("rapid.shrinktime", "10s")
 	rt.Check(t, rec, "where_extend_vs_language", 3000, 66000, func(t *rapid.T) {
 		g := &gctx{t: t, colKind: map[string]kind{}}
 		for _, c := range cols {
